@@ -63,6 +63,25 @@ def run_tasks(modname, tasks, patches=None, nproc=None):
         return list(pool.imap_unordered(_worker, args, chunksize=1))
 
 
+def expand_splits(modname, tasks, patches=None):
+    """tasks carrying 'split': n are replaced by sub-tasks, one per decision prefix"""
+    todo = [t for t in tasks if t.get('split')]
+    if not todo:
+        return tasks
+    out = [t for t in tasks if not t.get('split')]
+    res = run_tasks(modname, [dict(t, split_only=t['split']) for t in todo], patches)
+    for r in res:
+        t = dict(r['task'])
+        t.pop('split_only', None)
+        n = t.pop('split')
+        if r.get('error') or 'prefixes' not in r:
+            out.append(t)          # fall back to the unsplit task (error will resurface there)
+            continue
+        for pre in r['prefixes']:
+            out.append(dict(t, prefix=pre))
+    return out
+
+
 def real_replay(prop_id, case, mode='violation', timeout=600):
     """run props/<id>_real.py:replay(case) under the repo's interpreter on the
     real, unmodified modules.  Returns dict(reproduced=..., detail=...)."""
@@ -115,7 +134,7 @@ class Check:
     def run(self, with_canaries=None):
         mod = self.mod
         meta = mod.META
-        tasks = mod.tasks(self.tier)
+        tasks = expand_splits(self.modname, mod.tasks(self.tier))
         results = run_tasks(self.modname, tasks)
         errors = [r for r in results if r.get('error')]
         tot = dict(paths=0, decisions=0, queries=0, unsat=0, sat=0, unknown=0, solver_time_s=0.0, obligations=0)
@@ -215,7 +234,7 @@ class Check:
             with_canaries = (self.tier == 'thorough')
         if with_canaries and hasattr(mod, 'canaries'):
             for c in mod.canaries(self.tier):
-                cres = run_tasks(self.modname, c['tasks'], patches=c['patches'])
+                cres = run_tasks(self.modname, expand_splits(self.modname, c['tasks'], c['patches']), patches=c['patches'])
                 cerr = [r for r in cres if r.get('error')]
                 cv = [v for r in cres for v in r.get('violations', [])]
                 if c.get('ignore_keys'):
